@@ -160,6 +160,9 @@ def check(prop, tier, seed):
     if not obligations and not bounded_only and not not_extracted:
         # (a function that no longer has its contracted shape is "not extracted": its bounded stand-in decides, that is not vacuity)
         broken.append("zero obligations generated")
+    for v in getattr(eng, "vacuous_exits", []) or []:
+        # a for-loop whose invariants contradict its exit condition: everything after it would be proved vacuously
+        broken.append("vacuous loop exit: %s" % v)
     for r in covers:
         if r["status"] == "vacuous":
             broken.append("vacuous precondition: %s" % r["name"])
